@@ -363,3 +363,87 @@ def gen_cases(tier, rng):
             yield Case("c05.rtsp 0 %s" % ";".join(drop_empty(pevs)), cls="rtsp-hostile")
         if i % 4 == 0:
             yield Case("c05.dummy %d 8 %s" % (rng.choice([0, 100, 150]), ";".join(pevs)), cls="dummy-hostile")
+
+
+# --------------------------------------------------------------------------
+# observation, oracle, known findings
+T_RE = re.compile(r" t=(\d+)$")
+MAX_WALL_US = [0]
+SLOW_LIMIT_US = 1000000
+
+KNOWN_SITES = {
+    # site -> finding id
+    "nazabits.(*BitReader).ReadBits32:index": "F-13",
+}
+
+
+def split_impl(case, io):
+    """the Go side appends the largest per-message wall time of a c05.bcast history; the model has no clock"""
+    return T_RE.sub("", io)
+
+
+def _sites(out):
+    return re.findall(r"(?:panic|crash)@([^,| ]+)", out)
+
+
+def oracle(case, impl_out):
+    """C05 on the implementation's observation: the server survived every message (no panic, no crash of the
+    process), and no message of at most 64 KiB took more than a second.
+    The component ops print a precise observable; for them the property is only `no panic`.
+    c05.cls calls the helpers of t_rtmp.go directly, outside the validity gates of their callers: panics there are
+    API preconditions, not reachable from a published payload; the op has no oracle (model == implementation only)."""
+    op = case.line.split(" ", 1)[0]
+    if op in ("c05.cls", "c05.cls0"):
+        return None
+    m = T_RE.search(impl_out)
+    if m:
+        MAX_WALL_US[0] = max(MAX_WALL_US[0], int(m.group(1)))
+    if impl_out.startswith(("panic@", "crash@")) or ",panic@" in impl_out or ",crash@" in impl_out or "crash@" in impl_out:
+        return (False, "a published message terminated the server: %s" % ",".join(_sites(impl_out)))
+    if "timeout" in impl_out or "not-run" in impl_out:
+        return (False, "a published message stalled the server (harness timeout)")
+    if re.search(r"(^|,)slow(,| |$)", impl_out):
+        return (False, "a message of at most 64 KiB took more than 1 s")
+    if impl_out.startswith(("err", "bad", "unknown-op")):
+        return (False, "harness error: " + impl_out[:80])
+    return (True, "")
+
+
+def classify_finding(case, impl_out):
+    op = case.line.split(" ", 1)[0]
+    sites = _sites(impl_out)
+    if len(sites) == 1 and sites[0] in KNOWN_SITES:
+        return KNOWN_SITES[sites[0]]
+    # remux.RtspRemuxerAddSpsPps2KeyFrameFlag = true is only reachable through the component op (lalserver never sets it)
+    if op == "c05.rtsp" and case.line.split(" ")[1] == "1" and sites == ["remux.(*Rtmp2RtspRemuxer).remux:slice"]:
+        return "F-46"
+    return None
+
+
+def nontrivial(case, model_out):
+    """a history is non-trivial when at least one message was processed (or the model predicts the panic)"""
+    if case.line.startswith("c05.cls"):
+        return case.line if "=1" in model_out or "panic@" in model_out else None
+    return case.line if ("ok" in model_out or "/" in model_out or "+" in model_out or "panic@" in model_out) else None
+
+
+def neighbors(case, rng):
+    """around a model/implementation disagreement: the same history with one payload mutated / truncated"""
+    parts = case.line.split(" ")
+    evs = parts[-1].split(";")
+    for _ in range(60):
+        i = rng.randrange(len(evs))
+        if not evs[i].startswith("P:"):
+            continue
+        f = evs[i].split(":")
+        b = mutate(rng, tok_bytes(f[3]))
+        ev2 = list(evs)
+        ev2[i] = ":".join(f[:3] + [hex_tok(b)])
+        yield " ".join(parts[:-1] + [";".join(ev2)])
+
+
+def run(ctx, cases, cov, violations, known_hits, notes):
+    import sys
+    vf.generic_diff(sys.modules[__name__], ctx, cases, cov, violations, known_hits, notes)
+    cov["max_message_wall_us"] = MAX_WALL_US[0]
+    notes.append("largest per-message wall time in this run: %d us (limit %d us for a message of at most 64 KiB)" % (MAX_WALL_US[0], SLOW_LIMIT_US))
